@@ -47,6 +47,9 @@ enum Fault {
 	/// pings are enabled (every 20 ms, one tolerated inactive period of 40 ms) and the peer falls silent: writes succeed,
 	/// nothing ever arrives - the client gives the connection up and names inactivity as the cause
 	Inactivity,
+	/// the receive half fails while the client's request queue (one slot) is full behind a write that does not return and
+	/// the read task holds an unsubscribe call for a lagging subscription that it cannot hand over
+	RecvErrorWithFullQueue,
 	/// the transport fails exactly when the unsubscribe request of a dropped stream is written
 	SendErrorOnUnsubscribe,
 	RecvError,
@@ -182,7 +185,15 @@ async fn run_spec(spec: &Spec) -> Out {
 		_ => None,
 	};
 	let ping_max_failures = if spec.fault == Fault::Inactivity { Some(1) } else { None };
-	let (client, mut srv) = client(ClientCfg { request_timeout: REQUEST_TIMEOUT, ping_interval, ping_max_failures, ..Default::default() });
+	let full_queue = spec.fault == Fault::RecvErrorWithFullQueue;
+	let (client, mut srv) = client(ClientCfg {
+		request_timeout: REQUEST_TIMEOUT,
+		ping_interval,
+		ping_max_failures,
+		max_concurrent_requests: if full_queue { 1 } else { 256 },
+		sub_buffer: if full_queue { 2 } else { 1024 },
+		..Default::default()
+	});
 	let close_gate = Arc::new(Notify::new());
 	let slow_close = spec.slow_close || matches!(spec.fault, Fault::SendThenRecvError | Fault::PingSendError);
 	if slow_close {
@@ -193,14 +204,22 @@ async fn run_spec(spec: &Spec) -> Out {
 	// an open stream
 	let mut stream_task = None;
 	let mut stream_call_id: Option<Value> = None;
-	if spec.open_stream || matches!(spec.fault, Fault::SendErrorOnUnsubscribe | Fault::DuplicateSubIdAnswer | Fault::ReservedIdResponseThenServerClose) {
+	let mut _unread_stream = None;
+	if spec.open_stream || matches!(spec.fault, Fault::SendErrorOnUnsubscribe | Fault::DuplicateSubIdAnswer | Fault::ReservedIdResponseThenServerClose | Fault::RecvErrorWithFullQueue) {
 		let c = client.clone();
 		let t = tokio::spawn(async move { c.subscribe::<Value, _>("sub", rpc_params!["stream"], "unsub").await });
 		if let Ok(Some((_, WireMsg::Single(q)))) = tokio::time::timeout(Duration::from_secs(5), srv.next_msg()).await {
 			srv.push_text(ok_response(q.id.as_ref().unwrap_or(&Value::Null), json!("stream-1")));
 			stream_call_id = q.id.clone();
 		}
-		if let Ok(Ok(Ok(mut s))) = tokio::time::timeout(Duration::from_secs(5), t).await {
+		let opened = tokio::time::timeout(Duration::from_secs(5), t).await;
+		if full_queue {
+			// (this stream is never read: it is there to fall behind)
+			match opened {
+				Ok(Ok(Ok(s))) => _unread_stream = Some(s),
+				_ => out.violations.push(("setup-subscribe-failed/any".into(), "could not open the stream".into())),
+			}
+		} else if let Ok(Ok(Ok(mut s))) = opened {
 			srv.push_text(sub_notif("m", &json!("stream-1"), json!(1)));
 			stream_task = Some(tokio::spawn(async move {
 				let mut n = 0;
@@ -306,7 +325,29 @@ async fn run_spec(spec: &Spec) -> Out {
 			}
 			Some(nonce.clone())
 		}
+		Fault::RecvErrorWithFullQueue => {
+			*srv.ctl.send_gate.lock().unwrap() = Some(send_gate.clone());
+			// one call occupies the send task inside a write, the next one fills the queue of one
+			tasks.push(("trigger".into(), OpKind::Call, false, tokio::spawn(run_op(client.clone(), OpKind::Call, "trigger".into()))));
+			tokio::time::sleep(Duration::from_millis(2)).await;
+			tasks.push(("trigger2".into(), OpKind::Call, false, tokio::spawn(run_op(client.clone(), OpKind::Call, "trigger2".into()))));
+			tokio::time::sleep(Duration::from_millis(2)).await;
+			// the unread stream falls behind: the read task now holds an unsubscribe call it cannot hand over
+			for k in 0..4 {
+				srv.push_text(sub_notif("m", &json!("stream-1"), json!(k)));
+			}
+			tokio::time::sleep(Duration::from_millis(2)).await;
+			srv.push(ServerIn::Err(format!("receive failed {nonce}")));
+			Some(nonce.clone())
+		}
 		Fault::RecvError => {
+			if spec.stall_send {
+				// the send task is inside a write that does not return while the receive half fails: one more call whose write
+				// stalls at the gate (it is outstanding when the fault hits)
+				*srv.ctl.send_gate.lock().unwrap() = Some(send_gate.clone());
+				tasks.push(("trigger".into(), OpKind::Call, false, tokio::spawn(run_op(client.clone(), OpKind::Call, "trigger".into()))));
+				tokio::time::sleep(Duration::from_millis(2)).await;
+			}
 			srv.push(ServerIn::Err(format!("receive failed {nonce}")));
 			Some(nonce.clone())
 		}
@@ -401,7 +442,8 @@ async fn run_spec(spec: &Spec) -> Out {
 	// an observer of on_disconnect() that is already waiting when the cause is first stored
 	let early_disc = {
 		let c = client.clone();
-		tokio::spawn(async move { tokio::time::timeout(REQUEST_TIMEOUT + SLACK, c.on_disconnect()).await.ok().map(|e| err_kind(&e)) })
+		// (what is_connected() says at the moment on_disconnect() resolves is recorded with it: the two must agree)
+		tokio::spawn(async move { tokio::time::timeout(REQUEST_TIMEOUT + SLACK, c.on_disconnect()).await.ok().map(|e| (err_kind(&e), c.is_connected())) })
 	};
 
 	// late operations
@@ -422,6 +464,9 @@ async fn run_spec(spec: &Spec) -> Out {
 	if spec.stall_send {
 		// the later operations are queued behind the stalled write by now; it fails
 		tokio::time::sleep(Duration::from_millis(2)).await;
+		// the transport moves again (for this and every later write)
+		*srv.ctl.send_gate.lock().unwrap() = None;
+		send_gate.notify_waiters();
 		send_gate.notify_one();
 	}
 	tokio::time::sleep(Duration::from_millis(if slow_close { 15 } else { 3 })).await;
@@ -528,7 +573,12 @@ async fn run_spec(spec: &Spec) -> Out {
 			check_cause("on_disconnect()", k, &mut out);
 		}
 		match early_disc.await {
-			Ok(Some(k)) => check_cause("on_disconnect() awaited since the fault", &k, &mut out),
+			Ok(Some((k, still_connected))) => {
+				check_cause("on_disconnect() awaited since the fault", &k, &mut out);
+				if still_connected {
+					out.violations.push((format!("observers-disagree/{fclass}"), format!("[schedule: {sched}] on_disconnect() resolved with {k:?} while is_connected() still said true")));
+				}
+			}
 			Ok(None) => out.violations.push((format!("on-disconnect-pending/{fclass}"), format!("[schedule: {sched}] an on_disconnect() awaited since the fault did not resolve"))),
 			Err(e) => out.violations.push((format!("operation-panicked/{fclass}"), format!("on_disconnect observer: {e}"))),
 		}
@@ -807,7 +857,7 @@ fn gen_spec(seed: u64, directed: Option<(Fault, bool, bool)>) -> Spec {
 				14 => match r.below(3) {
 					0 => Fault::PingSendError,
 					1 => Fault::SendErrorThenCloseError,
-					_ => Fault::Inactivity,
+					_ => if r.bool() { Fault::Inactivity } else { Fault::RecvErrorWithFullQueue },
 				},
 				13 => Fault::SendThenRecvError,
 				12 => Fault::SendErrorOnUnsubscribe,
@@ -824,7 +874,7 @@ fn gen_spec(seed: u64, directed: Option<(Fault, bool, bool)>) -> Spec {
 			(f, r.chance(1, 4), r.chance(1, 4))
 		}
 	};
-	let stall_send = matches!(fault, Fault::SendError | Fault::SendThenRecvError) && r.chance(1, 2);
+	let stall_send = (matches!(fault, Fault::SendError | Fault::SendThenRecvError | Fault::RecvError) && r.chance(1, 2)) || fault == Fault::RecvErrorWithFullQueue;
 	Spec { seed, pre_ops, open_stream: r.chance(1, 2), fault, late_ops, hook_delays: r.chance(2, 3), slow_close, gate_frontend_closed: gate, stall_send }
 }
 
@@ -868,7 +918,7 @@ fn all_specs(seed: u64, n_random: u64) -> Vec<Spec> {
 	let mut v = Vec::new();
 	// fault enumeration: every fault kind x schedule variant x several histories
 	let mut faults: Vec<Fault> =
-		vec![Fault::SendError, Fault::SendErrorThenCloseError, Fault::Inactivity, Fault::SendThenRecvError, Fault::PingSendError, Fault::DuplicateSubIdAnswer, Fault::SendErrorOnUnsubscribe, Fault::RecvError, Fault::PeerClose, Fault::NotJson, Fault::JsonNoMessage, Fault::UnknownIdResponse, Fault::ReservedIdResponseThenServerClose, Fault::EmptyArray];
+		vec![Fault::SendError, Fault::SendErrorThenCloseError, Fault::Inactivity, Fault::RecvErrorWithFullQueue, Fault::SendThenRecvError, Fault::PingSendError, Fault::DuplicateSubIdAnswer, Fault::SendErrorOnUnsubscribe, Fault::RecvError, Fault::PeerClose, Fault::NotJson, Fault::JsonNoMessage, Fault::UnknownIdResponse, Fault::ReservedIdResponseThenServerClose, Fault::EmptyArray];
 	for ids in HOSTILE_IDS {
 		faults.push(Fault::BatchReplyIds(ids));
 	}
